@@ -51,7 +51,7 @@ def base_fit(name, wiring, params, X, y, seed):
 def run(R, tier, seed, driver_ok):
     quiet()
     rng = np.random.RandomState(seed + 808)
-    reps = 3 if tier == 'quick' else 15
+    reps = 6 if tier == 'quick' else 30
     R.rule = ('6 supervised estimators × n_constraints (given / default) / n_chunks / chunk_size / k_genuine / k_impostor × integer seeds × '
               'label vectors with and without unknown (−1) labels at arbitrary positions. case = (estimator, parameters, labels, seed); all non-trivial')
     R.assumptions = ['the base solver is treated as an arbitrary function; equality of metrics to 1e-9 relative']
@@ -65,7 +65,7 @@ def run(R, tier, seed, driver_ok):
             if dup_stream:
                 # repeated feature vectors (bootstrap-like data): a few samples share their coordinates
                 src = rng.choice(len(X), size=3, replace=False)
-                dst = np.array([int(rng.choice(np.nonzero(np.arange(len(X)) != s_)[0])) for s_ in src])
+                dst = np.array([int(rng.choice(np.nonzero(y != y[s_])[0])) for s_ in src])     # twins carry different labels
                 X = X.copy(); X[dst] = X[src]
             yl = y.copy()
             if unknown:
@@ -112,7 +112,13 @@ def run(R, tier, seed, driver_ok):
                     sup = zoo.CLASSES[name](**params).fit(X, yl)
                     base = base_fit(name, wiring, params, X, yl, sd)
             except Exception as e:
-                if dup_stream:
+                collapsed = False
+                if dup_stream and wiring[0] == 'pairs':
+                    with warnings.catch_warnings():
+                        warnings.simplefilter('ignore')
+                        pn_ = Constraints(yl).positive_negative_pairs(int(wiring[1]), same_length=wiring[2] == '1', random_state=sd)
+                    collapsed = any(np.array_equal(X[i_], X[j_]) for i_, j_ in list(zip(pn_[0], pn_[1])) + list(zip(pn_[2], pn_[3])))
+                if collapsed:
                     # two identical points were drawn as a pair (a collapsed pair: outside the learners' domain)
                     R.count('duplicate-rows-stream: collapsed pair drawn, case skipped')
                     continue
@@ -121,11 +127,7 @@ def run(R, tier, seed, driver_ok):
             Ms, Mb = sup.get_mahalanobis_matrix(), base.get_mahalanobis_matrix()
             if Ms.shape != Mb.shape or np.abs(Ms - Mb).max() > 1e-9 * max(np.abs(Mb).max(), 1e-300):
                 msg = f'{name}: supervised fit differs from the base learner on the label-derived constraints (wiring {" ".join(wiring)}): max diff {np.abs(Ms - Mb).max() if Ms.shape == Mb.shape else "shape"}'
-                if driver_ok:
-                    # the model's wiring is what is being compared: a mismatch is a broken correspondence unless relation 2 fails too
-                    R.broken(f'correspondence:C08:{name}', msg, case)
-                else:
-                    R.violation(f'{name}/differs-from-base', msg, case)
+                R.violation(f'{name}/differs-from-base', msg, case)
             # relation 2: unlabeled rows do not matter
             if unknown:
                 X2 = X.copy()
